@@ -11,6 +11,155 @@ import common
 from common import Check, BuildError
 
 
+PINS = {
+ "C01": [
+  "torf/_stream.py:TorrentFileStream.iter_pieces",
+  "torf/_stream.py:TorrentFileStream._iter_from_file_handle",
+  "torf/_stream.py:TorrentFileStream._read_from_fh",
+  "torf/_stream.py:TorrentFileStream._get_open_file",
+  "torf/_stream.py:TorrentFileStream._get_file_size_from_fs"
+ ],
+ "C10": [
+  "torf/_stream.py:TorrentFileStream.iter_pieces",
+  "torf/_stream.py:TorrentFileStream._iter_from_file_handle",
+  "torf/_stream.py:TorrentFileStream._get_open_file",
+  "torf/_stream.py:TorrentFileStream._get_file_size_from_fs",
+  "torf/_stream.py:_MissingPieces",
+  "torf/_stream.py:TorrentFileStream._get_content_path"
+ ],
+ "C11": [
+  "torf/_stream.py:TorrentFileStream.get_piece",
+  "torf/_stream.py:TorrentFileStream.get_piece_hash",
+  "torf/_stream.py:TorrentFileStream.verify_piece",
+  "torf/_stream.py:TorrentFileStream.get_absolute_piece_indexes",
+  "torf/_stream.py:TorrentFileStream.get_relative_piece_indexes",
+  "torf/_stream.py:TorrentFileStream.get_file_position",
+  "torf/_stream.py:TorrentFileStream._get_content_path"
+ ],
+ "C19": [
+  "torf/_stream.py:TorrentFileStream.iter_pieces",
+  "torf/_stream.py:TorrentFileStream._iter_from_file_handle",
+  "torf/_stream.py:TorrentFileStream._get_open_file",
+  "torf/_stream.py:TorrentFileStream.get_piece",
+  "torf/_stream.py:TorrentFileStream.get_piece_hash",
+  "torf/_stream.py:TorrentFileStream.verify_piece",
+  "torf/_stream.py:TorrentFileStream.close"
+ ],
+ "C05": [
+  "torf/_utils.py:decode_value",
+  "torf/_utils.py:decode_list",
+  "torf/_utils.py:decode_dict",
+  "torf/_utils.py:encode_list",
+  "torf/_torrent.py:Torrent.creation_date",
+  "torf/_torrent.py:Torrent.private"
+ ],
+ "C06": [
+  "torf/_utils.py:encode_list"
+ ],
+ "C07": [
+  "torf/_utils.py:assert_type",
+  "torf/_utils.py:key_exists_in_list_or_dict",
+  "torf/_utils.py:is_url",
+  "torf/_utils.py:encode_list"
+ ],
+ "C08": [
+  "torf/_utils.py:decode_value",
+  "torf/_utils.py:decode_list",
+  "torf/_utils.py:decode_dict",
+  "torf/_utils.py:assert_type",
+  "torf/_torrent.py:Torrent.creation_date",
+  "torf/_torrent.py:Torrent.private"
+ ],
+ "C17": [],
+ "C16": [
+  "torf/_utils.py:MonitoredList",
+  "torf/_utils.py:URL",
+  "torf/_utils.py:URLs",
+  "torf/_utils.py:Trackers",
+  "torf/_utils.py:flatten",
+  "torf/_torrent.py:Torrent.trackers",
+  "torf/_torrent.py:Torrent._trackers_changed",
+  "torf/_torrent.py:Torrent.webseeds",
+  "torf/_torrent.py:Torrent._webseeds_changed",
+  "torf/_torrent.py:Torrent.httpseeds",
+  "torf/_torrent.py:Torrent._httpseeds_changed"
+ ],
+ "C20": [
+  "torf/_torrent.py:Torrent.verify_filesize",
+  "torf/_torrent.py:Torrent.partial_size",
+  "torf/_utils.py:real_size"
+ ],
+ "C13": [
+  "torf/_magnet.py:Magnet.__str__",
+  "torf/_magnet.py:Magnet.from_string",
+  "torf/_magnet.py:Magnet.dn",
+  "torf/_magnet.py:Magnet.tr",
+  "torf/_magnet.py:Magnet.ws",
+  "torf/_magnet.py:Magnet.xs",
+  "torf/_magnet.py:Magnet.as_",
+  "torf/_magnet.py:Magnet.kt",
+  "torf/_magnet.py:Magnet.xl",
+  "torf/_magnet.py:Magnet.__init__",
+  "torf/_utils.py:URL"
+ ],
+ "C14": [
+  "torf/_magnet.py:Magnet.torrent",
+  "torf/_magnet.py:Magnet.get_info",
+  "torf/_magnet.py:Magnet._set_info_from_torrent",
+  "torf/_magnet.py:Magnet._infohash_hex",
+  "torf/_magnet.py:Magnet.xl"
+ ],
+ "C09": [
+  "torf/_torrent.py:Torrent._set_files",
+  "torf/_torrent.py:Torrent.piece_size",
+  "torf/_torrent.py:Torrent.piece_size_min",
+  "torf/_torrent.py:Torrent.piece_size_max",
+  "torf/_torrent.py:Torrent.generate"
+ ],
+ "C02": [
+  "torf/_torrent.py:Torrent.verify",
+  "torf/_generate.py:VerifyCallback",
+  "torf/_errors.py:VerifyContentError"
+ ],
+ "C03": [
+  "torf/_generate.py:Worker",
+  "torf/_generate.py:Reader",
+  "torf/_generate.py:HasherPool",
+  "torf/_generate.py:Collector"
+ ],
+ "C04": [
+  "torf/_generate.py:Worker",
+  "torf/_generate.py:Reader",
+  "torf/_generate.py:HasherPool",
+  "torf/_generate.py:Collector",
+  "torf/_torrent.py:Torrent.generate"
+ ],
+ "C12": [
+  "torf/_generate.py:Collector",
+  "torf/_generate.py:_IntervaledCallback",
+  "torf/_generate.py:_TranslatingCallback",
+  "torf/_generate.py:GenerateCallback",
+  "torf/_generate.py:VerifyCallback"
+ ],
+ "C15": [
+  "torf/_utils.py:list_files",
+  "torf/_utils.py:filter_files",
+  "torf/_torrent.py:Torrent._set_files",
+  "torf/_torrent.py:Torrent.path",
+  "torf/_utils.py:File"
+ ],
+ "C18": [
+  "torf/_reuse.py:find_torrent_files",
+  "torf/_reuse.py:is_file_match",
+  "torf/_reuse.py:_get_filepaths_and_sizes",
+  "torf/_reuse.py:is_content_match",
+  "torf/_reuse.py:copy",
+  "torf/_reuse.py:ReuseCallback",
+  "torf/_torrent.py:Torrent.reuse"
+ ]
+}
+
+
 def main():
     ap = argparse.ArgumentParser()
     ap.add_argument('prop')
@@ -34,8 +183,21 @@ def main():
     with common._Lock():
         ok, msg = common.regenerate_extracted()
         if not ok:
-            ck.extra.setdefault('broken', []).append(('translator', f'harness/extract.py could not extract the expected source shape: {msg.strip()[:800]}'))
+            ck.extra.setdefault('broken', []).append(('translator', f'harness/extract.py failed: {msg.strip()[:800]}'))
             # keep the previous Extracted.v so that the model still runs for the search
+        # per-property status of the translator: failed sections and pinned (hand-modelled) source that changed
+        try:
+            st = json.load(open(os.path.join(common.COQ, 'extract_status.json')))
+            for name, info in st.get('failed_sections', {}).items():
+                if a.prop in info.get('properties', []):
+                    ck.extra.setdefault('broken', []).append(('translator', f'section {name}: {info["error"][:600]}'))
+            want = json.load(open(os.path.join(common.VERIF, 'harness', 'pins.json')))
+            changed = [k for k in PINS.get(a.prop, []) if st.get('pins', {}).get(k) != want.get(k)]
+            if changed:
+                ck.extra.setdefault('broken', []).append(('source-pin', 'hand-modelled source changed (model no longer known to mirror it): ' + ', '.join(changed)))
+        except (OSError, ValueError) as e:
+            if ok:
+                ck.extra.setdefault('broken', []).append(('translator', f'no extraction status: {e}'))
         gate = common.grep_gate()
         if gate:
             ck.extra.setdefault('broken', []).append(('gate', 'forbidden construct in Coq sources: ' + '; '.join(gate[:5])))
